@@ -347,6 +347,40 @@ def _hoist_ifexp(s, taken, counter):
     return None
 
 
+def _for_over_genexp(s, used_outside, counter):
+    """`for v in (e for t in it if c): BODY` -> `for t in it: if c: v = e; BODY`
+    - a generator expression yields each item right before the body runs, so
+    the interleaving is the same; one generator clause, no for-else"""
+    if not (isinstance(s, ast.For) and isinstance(s.iter, ast.GeneratorExp)
+            and not s.orelse and len(s.iter.generators) == 1 and
+            not s.iter.generators[0].is_async):
+        return None
+    g = copy.deepcopy(s.iter.generators[0])
+    elt = copy.deepcopy(s.iter.elt)
+    mp = {}
+    for nm in _target_names(g.target):
+        if nm in used_outside:
+            counter[0] += 1
+            mp[nm] = "%s__c%d" % (nm, counter[0])
+    if mp:
+        r = _Ren(mp)
+        elt = r.visit(elt)
+        g.target = r.visit(g.target)
+        g.ifs = [r.visit(x) for x in g.ifs]
+    bind = ast.Assign(targets=[s.target], value=elt, lineno=s.lineno)
+    body = [bind] + s.body
+    for cond in reversed(g.ifs):
+        body = [ast.If(test=cond, body=body, orelse=[])]
+    _store(g.target)
+    loop = ast.For(target=g.target, iter=g.iter, body=body, orelse=[])
+    ast.copy_location(loop, s)
+    for sub_ in ast.walk(loop):
+        if isinstance(sub_, (ast.expr, ast.stmt)) and not hasattr(sub_, "lineno"):
+            ast.copy_location(sub_, s)
+    ast.fix_missing_locations(loop)
+    return loop
+
+
 def _ends_in_jump(stmts):
     if not stmts:
         return False
@@ -469,6 +503,15 @@ def desugar_function(fn):
             if ef is not None:
                 s = ef
                 done[0] += 1
+            if isinstance(s, ast.For) and isinstance(s.iter, ast.GeneratorExp):
+                inside = {id(n) for n in ast.walk(s.iter)}
+                used = {n.id for n in ast.walk(fn) if isinstance(n, ast.Name)
+                        and id(n) not in inside}
+                used |= {a.arg for a in ast.walk(fn) if isinstance(a, ast.arg)}
+                gf = _for_over_genexp(s, used, counter)
+                if gf is not None:
+                    s = gf
+                    done[0] += 1
             if isinstance(s, ast.Expr) and isinstance(s.value, ast.Call) and \
                     isinstance(s.value.func, ast.Attribute) and \
                     s.value.func.attr in ("update", "extend") and \
